@@ -25,3 +25,38 @@ CLAIMS["C09"] = dict(
          "sections as atomic); a registration is assumed not to expire while its own ingest is in progress; one sweeper. "
          "Known finding H-C09-2 (unsynchronised OnReload publication) is listed in known_findings.json.",
 )
+_CLASSIFY_NOTE = ("Connections are driven through connManager.handleNewTCPConn (handleNewConn needs SO_ORIGINAL_DST and cannot run offline) "
+                  "with a scripted in-memory connection; the oracle (should this flight match, which registration) is computed from the case "
+                  "definition, never from the code; cryptographic strength of the tags is assumed; wall-clock bounds carry 1 s slack.")
+CLAIMS["C02"] = dict(
+    category="model_checking",
+    technique="TLA+ specs Classify.tla + Registry.tla: TLC exhaustive (MatchSound, lookup scoping) + trace validation of real handleNewTCPConn runs over genuine / replayed / altered first flights against real registries",
+    text="Classify.tla states when a transport may answer 'match' (flight genuine, unaltered, registration with the same secret, transport "
+         "and prefix currently valid on the destination phantom) and TLC checks MatchSound/ConsumeExact exhaustively on scaled thresholds; "
+         "Registry.tla gives which registrations a lookup may return. Real flights from the real client transports are offered to the real "
+         "handler unaltered, replayed to other phantoms, for other transports/prefixes, against unvalidated/expired registrations, with single "
+         "bits flipped (all tag bits in thorough) or truncated; every event log (each transport's verdict per round, writes, close, which "
+         "registration was returned, what reached the covert) is validated against the spec.",
+    note=_CLASSIFY_NOTE,
+)
+CLAIMS["C03"] = dict(
+    category="model_checking",
+    technique="TLA+ spec Classify.tla: TLC exhaustive (NoBytes, NoEarlyClose, KeepsReading) + trace validation of real handleNewTCPConn probe runs with a deadline-honouring scripted connection",
+    text="TLC checks on all segmentations/pacings/peer-close positions of all stream kinds that nothing is written, nothing returns before the "
+         "deadline unless the peer closed, and no phase stops reading. ~420 (quick) / ~2500 (thorough) real probes (random, look-alikes, every "
+         "static prefix + garbage, threshold lengths, flipped/truncated genuine flights; phantoms with no/one/many registrations) are run in "
+         "parallel against the real handler; each recorded call sequence must be a behaviour of the spec (first deadline 5-10 s ahead, every "
+         "verdict equal to the spec's, no Write, no Close/return before the observed deadline, everything sent was read); deadlines must spread "
+         "over the window.",
+    note=_CLASSIFY_NOTE,
+)
+CLAIMS["C04"] = dict(
+    category="model_checking",
+    technique="TLA+ spec Classify.tla: TLC exhaustive over all segmentations (FoundWhenComplete, ConsumeExact, Recognised) + trace validation of real end-to-end runs under every 1-cut / 2-cut segmentation",
+    text="TLC checks that accumulate-and-retry finds a complete valid flight under every segmentation and consumes exactly the handshake. "
+         "Real runs: genuine flights of the real min / prefix (every id x flush policy) / obfs4 (live, behind a segmenting shim) clients plus "
+         "early and late data are delivered under every 1-cut (quick) and every 2-cut (thorough) segmentation and random k-cuts with pauses "
+         "into the real handler with other registrations on the phantom; the bytes at the loopback covert and the echo at the client must "
+         "equal what was sent, the registration must be marked used, and every event log must be a behaviour of the spec.",
+    note=_CLASSIFY_NOTE,
+)
